@@ -1,11 +1,35 @@
 """C11 — printed assembly is a faithful, assemblable rendering of the function."""
 from vlib import modules
 
-MODS = ["AvoVerif.Props.C11", "AvoVerif.Props.C11Text", "AvoVerif.Props.C11Tables", "AvoVerif.Props.C11Examples"]
+MODS = ["AvoVerif.Props.C11", "AvoVerif.Props.C11Text", "AvoVerif.Props.C11Tables", "AvoVerif.Props.C11Examples",
+        "AvoVerif.Props.C11Accept", "AvoVerif.Props.C11Bind"]
+
+
+def floors(ctx, sub, n, spec):
+    """Lower bounds on what a stream actually judged (and upper bounds on what it dropped): a change that makes
+    a whole class of files fail to build, compile, print or assemble shrinks the sample silently otherwise."""
+    st = ctx.coverage.get("input_distribution", {}).get(sub)
+    if st is None:
+        return  # the stream did not run: already an obligation failure
+    bad = []
+    for key, (lo, hi) in spec.items():
+        v = st.get(key, 0)
+        lo = lo(n) if callable(lo) else lo
+        hi = hi(n) if callable(hi) else hi
+        if lo is not None and v < lo:
+            bad.append(f"{key}={v} < {lo}")
+        if hi is not None and v > hi:
+            bad.append(f"{key}={v} > {hi}")
+    ctx.obligations += 1
+    if bad:
+        ctx.obligation_failures.append((f"{sub}: sample floor", "; ".join(bad)))
+    else:
+        ctx.discharged += 1
 
 
 def run(ctx):
-    if not ctx.build_harness():
+    # isolation: only the shared core plus C11's own Go files are compiled into .work/bin/avoh-C11
+    if not ctx.build_harness(["c11.go", "c11enc.go"]):
         return
     ctx.regen([modules.TEXTFLAGS, modules.TEXTFLAGH])
     ctx.forbidden_scan()
@@ -19,30 +43,104 @@ def run(ctx):
     quick = ctx.tier == "quick"
     # (b) tie: byte equality of the model's rendering with printer.NewGoAsm(cfg).Print(file) on
     # generated files, the well-formedness mirror, and the read-back acceptor on the real text
-    ctx.differential("c11", 1500 if quick else 40000,
+    n1 = 1500 if quick else 40000
+    # corpus first (corpus/C11/*.txt: generator-level cases regenerated from their own seeds)
+    if not ctx.replay:
+        ctx.run_corpus("c11")
+        ctx.run_corpus("c11asm", max_report=1000)
+    ctx.differential("c11", n1,
                      nontrivial=lambda req, resp: " i " in req and (" l " in req or " c " in req))
+    if not ctx.replay:
+        floors(ctx, "c11", n1, {
+            "encode_error": (None, 0),
+            "print_ok": (lambda n: n, None),            # every generated file is printed (errors/panics are answers, not drops)
+            "wellformed": (lambda n: n * 6 // 10, None),
+            "malformed": (lambda n: n // 20, None),
+            "functions": (lambda n: n, None),
+            "globals": (lambda n: n // 4, None),
+            "blocks_over_64": (lambda n: n // 40, None),
+            "files_over_4_sections": (lambda n: n // 40, None),
+        })
     # measured: compiled programs through `go tool asm -S` and binutils objdump
-    ctx.differential("c11asm", 300 if quick else 10000, extra=["-work", ctx.dir], max_report=1000,
+    n2 = 300 if quick else 10000
+    ctx.differential("c11asm", n2, extra=["-work", ctx.dir], max_report=1000,
                      nontrivial=lambda req, resp: req.startswith("accept-asm") and " i " in req)
+    if not ctx.replay:
+        floors(ctx, "c11asm", n2, {
+            "build_error": (None, 0),
+            "compile_error": (None, 0),
+            "labeltarget_error": (None, 0),
+            "print_dropped": (None, 0),
+            "branch_ctor_error": (None, 0),
+            "compiled": (lambda n: n, None),
+            "asm_accepted": (lambda n: n * 7 // 10, None),
+            "asm_functions": (lambda n: n, None),
+            "asm_branches": (lambda n: n, None),
+            "asm_machine_jumps": (lambda n: n, None),
+            "asm_blocks_over_64": (lambda n: n // 40, None),
+            "asm_globals": (lambda n: n // 8, None),
+            "asm_hazard_files": (50, None),
+            "asm_short_branch_files": (1, None),
+            "branch_opcodes_in_table": (40, None),
+        })
+        st = ctx.coverage.get("input_distribution", {}).get("c11asm") or {}
+        ctx.obligations += 1
+        if st.get("branch_opcodes_used", 0) != st.get("branch_opcodes_in_table", -1):
+            ctx.obligation_failures.append(("c11asm: every branch opcode of the table assembled",
+                                            f"{st.get('branch_opcodes_used')} of {st.get('branch_opcodes_in_table')}"))
+        else:
+            ctx.discharged += 1
+    ctx.coverage["proof_partial"] = (
+        "proved for all files (Lean): the model of goasm.go prints every instruction once and in order, keeps every label in "
+        "front of the same instruction, one TEXT line per function with attribute clause/frame/args, and the printed bytes read "
+        "back as the file (print_faithful, under the token hypotheses WFFile); the acceptors are sound w.r.t. their declarative "
+        "statements (acceptPrint_sound, acceptAsmFn_sound, acceptAsm_sound); labelsFrom (the binding used by all statements) is the LabelTarget of Model/Func (labelsFrom_is_labelTarget). MEASURED on generated samples only: that "
+        "`go tool asm` accepts the text, object-symbol flags/sizes and that encoded branches land on the bound instruction")
     ctx.coverage["rule"] = (
-        "generated ir.Files (functions x data sections x constraints x includes; node lists with any interleaving of "
+        "c11: generated ir.Files (functions x data sections x constraints x includes; node lists with any interleaving of "
         "labels/comments/instructions built by real x86 constructors or by hand, empty functions, trailing labels/comments, "
-        "every operand kind and constant type; every 5th file with malformed tokens): `print` = exact bytes of the model vs "
-        "printer.NewGoAsm; `wf` = the hypotheses of print_faithful evaluated in Lean vs the harness; `accept-print` = the "
-        "implementation's text split/lexed/parsed back to sections, instructions and label bindings; c11asm: programs "
-        "compiled by pass.Compile, assembled by `go tool asm -S` (`accept-assembles`), instruction boundaries confirmed "
-        "by binutils (`accept-decode`), per-symbol instruction order and decoded branch targets vs the label binding "
-        "(`accept-asm`). non-trivial = file has an instruction and a label or comment (c11) / an assembled function (c11asm)")
+        "blocks of 65..400 buffered instructions, up to 14 sections per file, every operand kind and constant type; every 5th file with malformed tokens): "
+        "`print` = exact bytes of the model vs printer.NewGoAsm (the byte format is pinned by avo's own golden tests; the "
+        "property itself is judged by the acceptors); `wf` = the hypotheses of print_faithful evaluated in Lean vs the harness; "
+        "`accept-print` = the implementation's text split/lexed/parsed back to sections, instructions and label bindings. "
+        "c11asm: programs built through build.Context (function/data/label names from pools incl. register-like and "
+        "macro-like symbol names, every J* opcode of the compiled table that takes a label — rel8-only ones in a short shape —, "
+        "runs of 65..200 instructions, 15 attribute sets + random 16-bit attribute words, data sections referenced from code), "
+        "compiled by pass.Compile, printed, assembled by `go tool asm -S` (`accept-assembles`; a rejected multi-function file is "
+        "re-judged function by function, and a rejection is a known finding only when EVERY assembler message is explained by "
+        "the hazardous label of a dedicated hazard file), instruction boundaries confirmed by binutils (`accept-decode`), and "
+        "`accept-asm`: per symbol name, argument size, frame (exact, incl. NOFRAME), DUPOK/TOPFRAME/WRAPPER flags (both "
+        "directions), NOSPLIT (one direction), frame/args against what the GENERATOR asked for (sum of AllocLocal sizes; "
+        "go/types ABI0 layout of the signature), instruction order, decoded branch targets vs the label binding, and no "
+        "relative machine jump outside the listed branches. non-trivial = file has an instruction and a label or comment "
+        "(c11) / an assembled function (c11asm). Sample floors are obligations.")
     ctx.assumptions += [
         "token hypotheses of print_faithful (WFFile): no newline in names, comments, operands, labels; names without '('; "
-        "opcodes without space and not starting with '/'; labels not starting with a reserved line prefix; constraint lines are // comments",
+        "opcodes without space and not starting with '/'; labels not starting with a reserved line prefix; constraint lines are // comments. "
+        "WFFile is about avo's OWN reading of the text (lexLine/parseFile), not the assembler's: label names that the assembler reads "
+        "differently (register names, macros, non-identifiers) satisfy WFFile — they are covered by the measured part (findings C11-label-*)",
+        "text level: a reader sees the opcode-with-suffixes token and the operand text as ONE string each: `Instr.key` conflates operand "
+        "lists whose texts join to the same string (\"a, b\" vs \"a\",\"b\") and opcode `X`+suffix `Z` with opcode `X.Z`; ows_inj/"
+        "flush_complete state the exact (structured) version",
         "the Go assembler's -S listing gives the instruction boundaries and source lines of the object code (cross-checked against "
-        "binutils objdump on the raw bytes); assembler-inserted prologue/epilogue instructions carry the TEXT line or the RET's line",
+        "binutils objdump on the raw bytes); assembler-inserted prologue/epilogue instructions carry the TEXT line or the RET's line "
+        "(jumps inside a terminal instruction's code are therefore not checked against the branch list)",
         "the assembler threads jumps through unconditional JMPs; a branch may land on any instruction of the JMP chain starting at its label",
-        "acceptance by `go tool asm` and label resolution are measured on the generated sample only",
+        "acceptance by `go tool asm` and label resolution are measured on the generated sample only (go1.23 amd64 on this host)",
+        "frames are < 2^31 and non-negative in c11asm; the object's frame is frame+8 (saved BP) unless NOFRAME or frame 0",
+        "NEEDCTXT, NOPROF, REFLECTMETHOD, TLSBSS, RODATA, NOPTR and unnamed bits on TEXT have no effect visible in the -S listing: for them "
+        "only the TEXT line's clause is checked (evaluated with the installed textflag.h, C19); GLOBL flags of data sections are "
+        "checked as text only (symbol kind/bytes: C13)",
+        "invalid UTF-8 in names/operands and the sticky prnt.Generator error path are not generated (the model's Txt cannot represent "
+        "invalid UTF-8); printf verbs in the constraint block cannot reach goasm.header's Printf because buildtags.Format rejects them",
     ]
     ctx.trusted += [
         "go tool asm, binutils objdump (x86-64 decoder) as ground truth for the measured part",
-        "operand texts (Op.Asm()), the stub/signature text and buildtags.Format output are opaque tokens taken from the real code",
+        "operand texts (Op.Asm()), the stub/signature text and buildtags.Format output are opaque tokens taken from the real code: a wrong "
+        "operand text (e.g. Mem.Asm dropping a scale) is invisible to C11 as long as it assembles — operand rendering vs encoding is C05's "
+        "property; C11 checks only that the printer passes Op.Asm() through unchanged and in order",
+        "Gen.attrname is obtained by calling attr.Attribute(1<<i).Asm() on the compiled package (no source parsing)",
         "Oracle.textflagH is parsed from $(go env GOROOT)/pkg/include/textflag.h on every run",
+        "the hand-tagged hazard classes of label names (harness/c11.go p11HazardLabels) and the classification of assembler messages "
+        "(p11ClassifyReject): glue; a message that is not explained is reported as a violation, never suppressed",
     ]
